@@ -372,6 +372,14 @@ func (s *vfSession) serverStderr() string {
 // serverMessage returns what the server finally told the user: the text after the terminal reset sequence.
 func (s *vfSession) serverMessage() string {
 	raw := s.serverRaw()
+	// background (-f) mode: the terminal was already handed back ("Switch to transfer in background."), the final
+	// message comes later as ESC 7 CR LF <msg> CR LF ESC 8
+	if j := bytes.LastIndex(raw, []byte("\x1b7\r\n")); j >= 0 && bytes.Contains(raw[:j], []byte("Switch to transfer in background.")) {
+		msg := raw[j+4:]
+		if k := bytes.LastIndex(msg, []byte("\r\n\x1b8")); k >= 0 {
+			return string(msg[:k])
+		}
+	}
 	i := bytes.LastIndex(raw, []byte("\x1b8\x1b[0J"))
 	if i < 0 {
 		return ""
